@@ -765,3 +765,244 @@ Section Instances.
     roundtrip_repaired to_rotvec of_rotvec d = Ok (back to_rotvec of_rotvec d (d_points d)).
   Proof. apply roundtrip_gen_total; [exact R|]. apply import_export_points_repaired, points_in_range. Qed.
 End Instances.
+(* ------------------------------------------------------------------ a re-used export target (histories) *)
+(* a dict updated in a loop whose value depends on the key only: what a key maps to afterwards *)
+Lemma lookup_fold_insert_opt {X V} (k : X -> string) (f : string -> option V) (l : list X) :
+  forall acc n,
+  lookup n (fold_left (fun m x => match f (k x) with Some e => insert (k x) e m | None => m end) l acc)
+  = if memb n (map k l) then match f n with Some e => Some e | None => lookup n acc end else lookup n acc.
+Proof.
+  induction l as [|x l IH]; intros acc n; cbn; [reflexivity|].
+  rewrite IH. destruct (eqb_spec n (k x)) as [->|N]; cbn.
+  - destruct (f (k x)) as [e|] eqn:F.
+    + destruct (memb (k x) (map k l)); [reflexivity|apply lookup_insert_eq].
+    + destruct (memb (k x) (map k l)); reflexivity.
+  - destruct (f (k x)) as [e|]; [rewrite lookup_insert_neq by exact N|]; reflexivity.
+Qed.
+
+Lemma wf_fold_insert_opt {X V} (k : X -> string) (f : string -> option V) (l : list X) :
+  forall acc, NoDup (keys acc) ->
+  NoDup (keys (fold_left (fun m x => match f (k x) with Some e => insert (k x) e m | None => m end) l acc)).
+Proof.
+  induction l as [|x l IH]; intros acc W; cbn; [exact W|].
+  apply IH. destruct (f (k x)); [apply wf_insert|]; exact W.
+Qed.
+
+(* what the features folder holds after an export into a directory that held [prev] *)
+Theorem reexport_features_lookup prev d n :
+  lookup n (export_features_onto prev d)
+  = if memb n (names d)
+    then match feature_entry d n with Some e => Some e | None => lookup n prev end
+    else lookup n prev.
+Proof. exact (lookup_fold_insert_opt i_name (feature_entry d) (d_images d) prev n). Qed.
+
+Theorem reexport_matches_lookup prev d a :
+  lookup a (export_matches_onto prev d)
+  = match d_matches d with
+    | [] => lookup a prev
+    | _ => if memb a (names d) then Some (matches_of d a) else lookup a prev
+    end.
+Proof.
+  unfold export_matches_onto. destruct (d_matches d) as [|m0 ms]; [reflexivity|].
+  exact (lookup_fold_insert_opt i_name (fun n => Some (matches_of d n)) (d_images d) prev a).
+Qed.
+
+Lemma export_features_fresh d : export_features d = export_features_onto [] d.
+Proof. reflexivity. Qed.
+Lemma export_matches_fresh d : export_matches d = export_matches_onto [] d.
+Proof. unfold export_matches, export_matches_onto. destruct (d_matches d); reflexivity. Qed.
+
+Lemma wf_export_features_onto prev d : NoDup (keys prev) -> NoDup (keys (export_features_onto prev d)).
+Proof. exact (wf_fold_insert_opt i_name (feature_entry d) (d_images d) prev). Qed.
+Lemma wf_export_matches_onto prev d : NoDup (keys prev) -> NoDup (keys (export_matches_onto prev d)).
+Proof.
+  intros W. unfold export_matches_onto. destruct (d_matches d); [exact W|].
+  exact (wf_fold_insert_opt i_name (fun n => Some (matches_of d n)) (d_images d) prev W).
+Qed.
+
+(* covered history: the folders end up holding what a fresh export writes *)
+Theorem reexport_covered_features prev d : covered_by prev d ->
+  forall n, lookup n (export_features_onto (o_features prev) d) = lookup n (export_features d).
+Proof.
+  intros [CF _] n. rewrite export_features_fresh, !reexport_features_lookup. cbn [lookup].
+  destruct (lookup n (o_features prev)) as [e|] eqn:L.
+  - destruct (CF n) as [M FE]; [rewrite L; discriminate|]. fold (names d) in M. rewrite M.
+    destruct (feature_entry d n); [reflexivity|congruence].
+  - destruct (memb n (names d)); reflexivity.
+Qed.
+
+Theorem reexport_covered_matches prev d : covered_by prev d ->
+  forall a, lookup a (export_matches_onto (o_matches prev) d) = lookup a (export_matches d).
+Proof.
+  intros [_ CM] a. rewrite export_matches_fresh, !reexport_matches_lookup. cbn [lookup].
+  destruct (lookup a (o_matches prev)) as [e|] eqn:L.
+  - destruct (CM a) as [NE M]; [rewrite L; discriminate|]. fold (names d) in M. rewrite M.
+    destruct (d_matches d); [congruence|reflexivity].
+  - destruct (d_matches d); [reflexivity|]. destruct (memb a (names d)); reflexivity.
+Qed.
+
+(* leftovers, AS THE CODE IS: a features file of the earlier export that the dataset does not write again stays *)
+Theorem reexport_leftover_features prev d n e :
+  lookup n prev = Some e -> feature_entry d n = None -> lookup n (export_features_onto prev d) = Some e.
+Proof. intros L F. rewrite reexport_features_lookup, F, L. destruct (memb n (names d)); reflexivity. Qed.
+Theorem reexport_leftover_matches prev d a f :
+  lookup a prev = Some f -> d_matches d = [] -> lookup a (export_matches_onto prev d) = Some f.
+Proof. intros L E. rewrite reexport_matches_lookup, E. exact L. Qed.
+
+(* ---- the importer on arbitrary (well-formed: one file per name) folders *)
+Lemma import_keypoints_keys fs k : In k (keys (import_keypoints fs)) -> In k (keys fs).
+Proof.
+  induction fs as [|[k' [[a|] ds]] fs IH]; cbn; [tauto| |]; intros I.
+  - destruct I as [<-|I]; [left; reflexivity|right; exact (IH I)].
+  - right; exact (IH I).
+Qed.
+Lemma import_descriptors_keys fs k : In k (keys (import_descriptors fs)) -> In k (keys fs).
+Proof.
+  induction fs as [|[k' [kp [a|]]] fs IH]; cbn; [tauto| |]; intros I.
+  - destruct I as [<-|I]; [left; reflexivity|right; exact (IH I)].
+  - right; exact (IH I).
+Qed.
+
+Lemma lookup_import_keypoints fs n : NoDup (keys fs) ->
+  lookup n (import_keypoints fs) = match lookup n fs with Some (Some a, _) => Some a | _ => None end.
+Proof.
+  induction fs as [|[k [kp ds]] fs IH]; cbn; [reflexivity|]. intros ND. inversion ND as [|? ? Nk ND']; subst.
+  destruct kp as [a|]; cbn; destruct (eqb_spec n k) as [->|N]; try reflexivity; try (apply IH; exact ND').
+  apply lookup_not_key. intro I. apply Nk. apply import_keypoints_keys. exact I.
+Qed.
+Lemma lookup_import_descriptors fs n : NoDup (keys fs) ->
+  lookup n (import_descriptors fs) = match lookup n fs with Some (_, Some a) => Some a | _ => None end.
+Proof.
+  induction fs as [|[k [kp ds]] fs IH]; cbn; [reflexivity|]. intros ND. inversion ND as [|? ? Nk ND']; subst.
+  destruct ds as [a|]; cbn; destruct (eqb_spec n k) as [->|N]; try reflexivity; try (apply IH; exact ND').
+  all: apply lookup_not_key; intro I; apply Nk; apply import_descriptors_keys; exact I.
+Qed.
+
+Lemma lookup_one_file (a : string) b (f : list (string * list (Z * Z))) :
+  lookup (a, b) (map (fun e => ((a, fst e), map one_score (snd e))) f) = option_map (map one_score) (lookup b f).
+Proof.
+  induction f as [|[b' r] f IH]; cbn; [reflexivity|].
+  change (eqb (a, b) (a, b')) with (pair_eqb (a, b) (a, b')). unfold pair_eqb; cbn [fst snd].
+  rewrite eqb_refl; cbn. destruct (eqb b b'); [reflexivity|exact IH].
+Qed.
+
+Lemma import_matches_keys ms a b : In (a, b) (keys (import_matches ms)) -> In a (keys ms).
+Proof.
+  unfold import_matches, keys. induction ms as [|[a' f] ms IH]; cbn; [tauto|].
+  rewrite map_app, in_app_iff. intros [I|I].
+  - rewrite map_map in I. cbn in I. apply in_map_iff in I. destruct I as (e & E & _). inversion E. left; reflexivity.
+  - right. exact (IH I).
+Qed.
+
+Lemma lookup_import_matches_wf ms a b : NoDup (keys ms) ->
+  lookup (a, b) (import_matches ms)
+  = match lookup a ms with Some f => option_map (map one_score) (lookup b f) | None => None end.
+Proof.
+  induction ms as [|[a' f] ms IH]; [reflexivity|]. intros ND. inversion ND as [|? ? Na ND']; subst.
+  unfold import_matches in *. cbn [flat_map fst snd lookup]. rewrite lookup_app.
+  destruct (eqb_spec a a') as [->|N].
+  - rewrite lookup_one_file. destruct (lookup b f) as [r|]; cbn; [reflexivity|].
+    apply lookup_not_key. intro I. apply Na. exact (import_matches_keys ms a' b I).
+  - rewrite lookup_other_file by exact N. apply IH. exact ND'.
+Qed.
+
+(* ---- export_onto / import on a project with other folders *)
+Lemma export_onto_spec to_rv prev d :
+  export_onto to_rv prev d
+  = bind (export to_rv d) (fun p => Ok (with_fm p (export_features_onto (o_features prev) d)
+                                                 (export_matches_onto (o_matches prev) d))).
+Proof.
+  unfold export_onto, export. destruct (export_cameras (d_cameras d)); cbn [bind]; [|reflexivity].
+  destruct (export_points (d_points d)); reflexivity.
+Qed.
+
+Lemma export_onto_empty to_rv d : export_onto to_rv empty_project d = export to_rv d.
+Proof.
+  unfold export_onto, export. cbn [empty_project o_features o_matches].
+  rewrite <- export_features_fresh, <- export_matches_fresh. reflexivity.
+Qed.
+
+Lemma import_gen_with_fm of_rv ipts p f m :
+  import_gen of_rv ipts (with_fm p f m)
+  = bind (import_gen of_rv ipts p)
+         (fun d0 => Ok (set_fm d0 (import_keypoints f) (import_descriptors f) (import_matches m))).
+Proof.
+  unfold import_gen, with_fm; cbn [o_cameras o_shots o_points o_features o_matches].
+  destruct (import_cameras (o_cameras p)); cbn [bind]; [|reflexivity].
+  destruct (import_shots of_rv 0 (o_shots p)); cbn [bind]; [|reflexivity].
+  destruct (ipts (o_points p)); reflexivity.
+Qed.
+
+(* the round trip through a re-used directory differs from the fresh one in the features and matches only,
+   and those are what the importer reads from the folders as they are after the export: ANY earlier project *)
+Theorem roundtrip_onto_spec to_rv of_rv prev d d0 :
+  roundtrip to_rv of_rv d = Ok d0 ->
+  roundtrip_onto to_rv of_rv prev d
+  = Ok (set_fm d0 (import_keypoints (export_features_onto (o_features prev) d))
+                  (import_descriptors (export_features_onto (o_features prev) d))
+                  (import_matches (export_matches_onto (o_matches prev) d))).
+Proof.
+  unfold roundtrip, roundtrip_onto. rewrite export_onto_spec.
+  destruct (export to_rv d) as [p|e]; cbn [bind]; [|discriminate].
+  unfold import_. rewrite import_gen_with_fm. intros ->. reflexivity.
+Qed.
+
+Section ReExport.
+  Variable to_rv : quat -> vec.
+  Variable of_rv : vec -> quat.
+  Variable d : dataset.
+  Hypothesis R : in_range d = true.
+  Variable prev : project.
+  Hypothesis WF : NoDup (keys (o_features prev)).
+  Hypothesis WM : NoDup (keys (o_matches prev)).
+  Hypothesis COV : covered_by prev d.
+
+  Lemma fresh_keypoints n : lookup n (import_keypoints (export_features d)) = lookup n (d_keypoints d).
+  Proof.
+    rewrite <- (keypoints_preserved to_rv of_rv d R None n). cbn [back d_keypoints]. unfold kp_back.
+    rewrite (export_features_flat d R). rewrite import_keypoints_flat. reflexivity.
+  Qed.
+  Lemma fresh_descriptors n : lookup n (import_descriptors (export_features d)) = lookup n (d_descriptors d).
+  Proof.
+    rewrite <- (descriptors_preserved to_rv of_rv d R None n). cbn [back d_descriptors]. unfold ds_back.
+    rewrite (export_features_flat d R). rewrite import_descriptors_flat. reflexivity.
+  Qed.
+
+  Theorem reexport_keypoints n :
+    lookup n (import_keypoints (export_features_onto (o_features prev) d)) = lookup n (d_keypoints d).
+  Proof.
+    rewrite lookup_import_keypoints by (apply wf_export_features_onto; exact WF).
+    rewrite (reexport_covered_features prev d COV).
+    rewrite <- fresh_keypoints. symmetry. apply lookup_import_keypoints.
+    rewrite export_features_fresh. apply wf_export_features_onto. constructor.
+  Qed.
+
+  Theorem reexport_descriptors n :
+    lookup n (import_descriptors (export_features_onto (o_features prev) d)) = lookup n (d_descriptors d).
+  Proof.
+    rewrite lookup_import_descriptors by (apply wf_export_features_onto; exact WF).
+    rewrite (reexport_covered_features prev d COV).
+    rewrite <- fresh_descriptors. symmetry. apply lookup_import_descriptors.
+    rewrite export_features_fresh. apply wf_export_features_onto. constructor.
+  Qed.
+
+  Theorem reexport_matches a b :
+    lookup (a, b) (import_matches (export_matches_onto (o_matches prev) d))
+    = option_map (fun rows => map one_score (map mrow_idx rows)) (lookup (a, b) (d_matches d)).
+  Proof.
+    rewrite <- (matches_preserved to_rv of_rv d R None a b). cbn [back d_matches].
+    rewrite !lookup_import_matches_wf.
+    - rewrite (reexport_covered_matches prev d COV). reflexivity.
+    - rewrite export_matches_fresh. apply wf_export_matches_onto. constructor.
+    - apply wf_export_matches_onto. exact WM.
+  Qed.
+End ReExport.
+
+(* ---- timestamps after the round trip are the ranks of the shots, whatever the timestamps of the dataset *)
+Lemma imgs_from_ts ts ims :
+  map i_ts (imgs_from ts ims) = map (fun k => (ts + Z.of_nat k)%Z) (seq 0 (List.length ims)).
+Proof.
+  revert ts; induction ims as [|im ims IH]; intros ts; [reflexivity|].
+  cbn [imgs_from map List.length seq i_ts]. rewrite IH, <- seq_shift, map_map. f_equal; [lia|].
+  apply map_ext. intros k. lia.
+Qed.
